@@ -271,7 +271,7 @@ class Sched:
     def __init__(self, prefix=(), kinds=("P", "T", "K"), kill_code=-9, horizon=50_000,
                  pipe_cap=65536, track_states=True, kill_filter=None, starve=None,
                  p_scope=None, t_scope=None, t_when=None, p_when=None, t_cur=None,
-                 zero_when=None, lines=None):
+                 zero_when=None, lines=None, p_cur=None):
         self.threads = []
         # line-granular mode: every source line executed by a parent-process thread inside the
         # named loky functions ("*": all loky code) is a decision point where another
@@ -299,6 +299,7 @@ class Sched:
         self.t_when = t_when      # if set, T alternatives only while a parent thread runs this function
         self.p_when = p_when      # if set, P alternatives only while a parent thread runs this function
         self.t_cur = t_cur        # if set, T alternatives only at decision points of this thread
+        self.p_cur = p_cur        # if set, P alternatives only at decision points of this thread
         # policy "timeouts are ~0 relative to this call": while a parent thread runs the named
         # function every short timed wait counts as expired (all idle timers fire inside it)
         self.zero_when = zero_when
@@ -373,6 +374,9 @@ class Sched:
         if self.p_scope is not None and len(en) > 1:
             en = en[:1] + [t for t in en[1:] if t.full.startswith(self.p_scope)]
         if self.p_when is not None and len(en) > 1 and not self._parent_in(self.p_when):
+            en = en[:1]
+        if self.p_cur is not None and len(en) > 1 and me is not None and me.state != "done" \
+                and en[0] is me and not me.full.startswith(self.p_cur):
             en = en[:1]
         alts = [("P", t, "run:" + t.full) for t in en]
         if en:
